@@ -16,17 +16,17 @@ open Layout Gen
     primitive the compiler's size and alignment; the only other entry is `void` -/
 theorem init_sound :
     ∀ e ∈ predefinedTypes, e.1 = "void" ∨ (e.1, e.2, predefinedAlign e.2) ∈ primLayout := by
-  sorry
+  decide
 
 theorem init_complete : ∀ e ∈ primLayout, (e.1, e.2.1) ∈ predefinedTypes := by
-  sorry
+  decide
 
 /-- the size / alignment pyxis computes for a type expression are the modelled compiler's, computed
     from the layouts recorded in the registry -/
 theorem embedding_uses_recorded (reg : Registry) (t : DTy) (s a : Nat)
     (hs : t.size reg = .ok (some s)) (ha : t.align reg = some a) :
     tyLayout reg.ps (regLayout reg) t = some (s, a) := by
-  sorry
+  exact embedding_lem reg t s a hs ha
 
 /-- **structs**: for an accepted type, the compiler's `repr(C)` size and alignment of the emitted struct
     (fields = the placed regions with the layouts pyxis recorded for their types, `align(a)` or
@@ -42,7 +42,7 @@ theorem struct_sound {β} (ps : Nat) (packed : Bool) (align? : Option Nat)
     ∧ (∀ n, target = some n → size = n)
     ∧ (∀ n, align? = some n → a = n)
     ∧ (packed = true → a = 1) := by
-  sorry
+  exact struct_sound_lem ps packed align? vptr fields target placed size a h ha
 
 /-- the fields handed to the compiler carry the layouts recorded in the registry: a placed source
     region's size and alignment are `Type::size` / `Type::alignment` of its type -/
@@ -50,7 +50,7 @@ theorem placed_layouts (reg : Registry) (vptr : Option Region) (pending : List (
     (target : Option Nat) (placed : List (Placed Region)) (size : Nat)
     (h : resolve (vptr.map (toPField reg none)) (pending.map fun p => toPField reg p.1 p.2) target = .ok (placed, size)) :
     ∀ pl ∈ placed, ∀ r, pl.src = some r → r.ty.size reg = .ok (some pl.size) ∧ r.ty.align reg = pl.align := by
-  sorry
+  exact placed_layouts_lem reg vptr pending target placed size h
 
 /-- **enums**: an accepted enum has the size and alignment of its base integer type in the compiler's table
     (`hreg`: the ten integer names still denote the predefined types, i.e. nobody registered a root-level
@@ -59,19 +59,19 @@ theorem enum_sound (s : State) (p : Path) (d : G.EnumDef) (r : Resolved)
     (hreg : ∀ e ∈ C08.intTypes, s.reg.get [e.1] = (State.new s.reg.ps).reg.get [e.1])
     (h : buildEnum s p d = .ok r) :
     ∃ ed name, r.inner = .enum ed ∧ ed.ty = .raw [name] ∧ (name, r.size, r.align) ∈ primLayout := by
-  sorry
+  exact enum_sound_lem s p d r hreg h
 
 /-- **generated vftable structs**: `slots * ps` bytes, pointer-aligned, for the compiler as for pyxis -/
 theorem vftable_sound (ps n : Nat) (hps : 0 < ps) :
     RustSem.structSize false (some ps) (List.replicate n ⟨ps, ps⟩) = n * ps
     ∧ RustSem.structAlign false (some ps) (List.replicate n ⟨ps, ps⟩) = ps := by
-  sorry
+  exact vftable_sound_lem ps n hps
 
 /-- the emitted size check transmutes between the resolved size and the item, and is present exactly
     for non-zero sizes -/
 theorem size_check_emitted (reg : Registry) (path : Path) (size align : Nat) (vis : Vis) (td : TypeDefn) :
     (size > 0 → Sexp.mk "sizecheck" [.str (fmtSizeCheck (path.getLast?.getD "")), .str (path.getLast?.getD ""), .int size]
         ∈ Emit.typeItems reg path size align vis td) := by
-  sorry
+  exact size_check_lem reg path size align vis td
 
 end PyxisVerif.C02
